@@ -151,6 +151,13 @@ func genShape(r *Rng, o *Out) structShape {
 			} else {
 				api = ""
 			}
+			if r.chance(1, 10) {
+				// a relationship declared on a field of a defined string type (type Ref string):
+				// neither string nor []string, so Check has to refuse the struct
+				ft = otherTys[3]
+				api = "rel,t"
+				o.stat("shape.rel-of-named-string")
+			}
 			if r.chance(1, 6) {
 				// a field the library must not see (no api tag) whose json name is that of
 				// a neighbour the library does see: every lookup by name has to skip it
